@@ -16,11 +16,13 @@ HERE = os.path.dirname(os.path.dirname(os.path.abspath(__file__)))
 
 def main():
     args = sys.argv[1:]
-    srcs, extra, recheck = [], [], False
+    srcs, extra, recheck, tag = [], [], False, ""
     while args:
         a = args.pop(0)
         if a == "--checks":
             extra = args.pop(0).split(",")
+        elif a == "--tag":
+            tag = args.pop(0)
         elif a == "--recheck":
             recheck = True
         else:
@@ -37,7 +39,7 @@ def main():
             continue
         valid = "error" not in r and r.get("demo_unchanged") == "pass" and r.get("suite_with_patch") == "pass" and str(r.get("demo_patched", "")).startswith("fail")
         caught = [c for c, v in r.get("checks", {}).items() if v["rc"] == 1 and v["violations"] > 0]
-        name = os.path.basename(src) if recheck else "%s-%s" % (prop, os.path.basename(src))
+        name = os.path.basename(src) if recheck else "%s%s-%s" % (prop, tag, os.path.basename(src))
         line = "%-10s valid=%-5s caught_by=%-12s %s" % (name, valid, ",".join(caught) or "NONE", (meta.get("summary") or "")[:110])
         if not valid:
             line += " | " + json.dumps({k: r.get(k) for k in ("error", "demo_unchanged", "suite_with_patch", "demo_patched", "suite_output")})[:300]
